@@ -1,18 +1,38 @@
 """Fail-closed translator: FEMData.write + every format writer -> the effect
-program of coq/C07/Model.v (Guard / Create / Append / If / Loop / Call ...).
+program of coq/C07/Model.v (Guard / Create / Append / Delete / Rename / If /
+Loop / Call / Try / Finally ...).
 
-Abstract interpretation over the Python AST.  Abstract values:
+Abstract interpretation of the *whole* body of FEMData.write, once per output
+format (file_type bound to the constant, overwrite bound to "some falsy
+value", file_name to the name the caller typed).  Nothing is matched on
+spelling: tests are evaluated to an abstract truth value and branches whose
+test is decided are pruned, helpers (methods, static methods, writer classes
+reached through the lazy imports) are inlined, the value a helper returns is
+computed by interpreting its body.
+
+Abstract values:
   ('P', pexp)  a path expression over the name the caller typed
-  ('S', str)   a constant string
-  ('O',)       anything else
-Rules (anything outside them raises TranslateError = the tie is broken):
-  * `if not overwrite and <P>.exists(): raise ...`        -> Guard P
+  ('D', pexp)  the parent directory of such a path
+  ('S', str)   a constant string          ('B', bool) / ('None',) constants
+  ('OW',)      the caller's overwrite flag (falsy: False, None, 0, ...)
+  ('Cls', rel, name)  a class imported from femio    ('W', ClassInfo, env) an instance
+  ('T', [...]) a tuple / list display
+  ('O',)       anything else              ('X',) differs between branches
+Truth values of tests: True / False / None (unknown) / ('E', pexp) "the file
+exists" / ('NE', pexp) / ('EW', pexp, str) "str(p).endswith(s)" / ('NEW', ...).
+Rules (anything outside them raises TranslateError = the translator cannot
+read the region; the harness then falls back to the baseline model + widened
+correspondence):
+  * `if <E p>: <always raises>`  (after pruning `not overwrite`)   -> Guard p
   * open(P, 'w'|'a'|'r')                                  -> Create/Append/-
-  * self.m(...) with m defined in the class (or FEMWriter) -> inlined Call
+  * P.unlink() / os.remove(P) / os.unlink(P)              -> Delete
+  * os.replace(P, Q) / os.rename / P.replace(Q) / P.rename(Q) / shutil.move -> Rename
+  * obj.m(...) with m defined in the class (or FEMWriter)  -> inlined Call
   * any other call that is handed a path value            -> Create (it may
     write the file); whitelisted read-only uses: str, Path, print, exists,
     mkdir, f-strings, exceptions
   * if / for / while around effects                        -> If / Loop
+  * try/except, try/finally                                -> Try / Finally
 """
 import ast
 import hashlib
@@ -25,9 +45,18 @@ class TranslateError(Exception):
 
 
 O = ('O',)
+OW = ('OW',)
+NONE = ('None',)
 READONLY_FUNCS = {'str', 'Path', 'print', 'ValueError', 'isinstance', 'len',
-                  'NotImplementedError', 'int', 'list', 'repr'}
-READONLY_METHODS = {'exists', 'mkdir', 'is_file', 'is_dir'}
+                  'NotImplementedError', 'int', 'list', 'repr', 'bool', 'type',
+                  'FileExistsError', 'OSError', 'RuntimeError', 'tuple', 'sorted',
+                  'enumerate', 'zip', 'range', 'dict', 'set', 'float', 'hasattr'}
+READONLY_METHODS = {'exists', 'mkdir', 'is_file', 'is_dir', 'endswith', 'startswith',
+                    'with_suffix', 'with_name', 'format'}
+OTHER = '<other>'                 # any file_type the dispatch does not know
+PROG_OPS = {'Skip', 'Seq', 'Guard', 'Create', 'Append', 'If', 'Loop', 'Call', 'Return',
+            'Raise', 'Delete', 'Rename', 'Try', 'Finally'}
+FILE_EVENTS = ('Guard', 'Create', 'Append', 'Delete', 'Rename')
 
 
 def coq_str(s):
@@ -38,6 +67,9 @@ def pexp_coq(p):
     k = p[0]
     if k == 'PName':
         return 'PName'
+    if k == 'PIfEnds':
+        return (f'(PIfEnds {coq_str(p[1])} {pexp_coq(p[2])} {pexp_coq(p[3])} '
+                f'{pexp_coq(p[4])})')
     return f'({k} {coq_str(p[1])} {pexp_coq(p[2])})'
 
 
@@ -46,12 +78,12 @@ def prog_coq(p, ind=2):
     pad = ' ' * ind
     if k in ('Skip', 'Return', 'Raise'):
         return pad + k
-    if k in ('Guard', 'Create', 'Append'):
+    if k in ('Guard', 'Create', 'Append', 'Delete'):
         return pad + f'({k} {pexp_coq(p[1])})'
-    if k == 'Seq':
-        return pad + '(Seq\n' + prog_coq(p[1], ind + 1) + '\n' + prog_coq(p[2], ind + 1) + ')'
-    if k == 'If':
-        return pad + '(If\n' + prog_coq(p[1], ind + 1) + '\n' + prog_coq(p[2], ind + 1) + ')'
+    if k == 'Rename':
+        return pad + f'(Rename {pexp_coq(p[1])} {pexp_coq(p[2])})'
+    if k in ('Seq', 'If', 'Try', 'Finally'):
+        return pad + f'({k}\n' + prog_coq(p[1], ind + 1) + '\n' + prog_coq(p[2], ind + 1) + ')'
     if k in ('Loop', 'Call'):
         return pad + f'({k}\n' + prog_coq(p[1], ind + 1) + ')'
     raise AssertionError(k)
@@ -67,44 +99,108 @@ def seq(ps):
     return out
 
 
-def has_effect(p):
+def subprogs(p):
     k = p[0]
-    if k in ('Guard', 'Create', 'Append', 'Return', 'Raise'):
-        return True
-    if k in ('Seq', 'If'):
-        return has_effect(p[1]) or has_effect(p[2])
+    if k in ('Seq', 'If', 'Try', 'Finally'):
+        return [p[1], p[2]]
     if k in ('Loop', 'Call'):
-        return has_effect(p[1])
+        return [p[1]]
+    return []
+
+
+def flatten(p):
+    yield p
+    for c in subprogs(p):
+        yield from flatten(c)
+
+
+def has_effect(p):
+    return any(q[0] in FILE_EVENTS + ('Return', 'Raise') for q in flatten(p))
+
+
+def has_file_event(p):
+    return any(q[0] in FILE_EVENTS for q in flatten(p))
+
+
+def definitely_raises(p):
+    """every run of p ends in Raised and p has no file event (the body of a
+    refusal: `raise ValueError(...)`, possibly after prints)"""
+    k = p[0]
+    if k == 'Raise':
+        return True
+    if has_file_event(p):
+        return False
+    if k == 'Seq':
+        if definitely_raises(p[1]):
+            return True
+        return not any(q[0] == 'Return' for q in flatten(p[1])) and definitely_raises(p[2])
+    if k == 'If':
+        return definitely_raises(p[1]) and definitely_raises(p[2])
+    if k == 'Call':
+        return definitely_raises(p[1])
     return False
 
 
-ADD_EXT_SHAPE = (
-    "FunctionDef(name='add_extension_if_needed', args=arguments(posonlyargs=[], "
-    "args=[arg(arg='self'), arg(arg='file_name'), arg(arg='ext')], kwonlyargs=[], "
-    "kw_defaults=[], defaults=[]), body=[If(test=Call(func=Attribute(value=Call("
-    "func=Name(id='str', ctx=Load()), args=[Name(id='file_name', ctx=Load())], "
-    "keywords=[]), attr='endswith', ctx=Load()), args=[Name(id='ext', ctx=Load())], "
-    "keywords=[]), body=[Return(value=Name(id='file_name', ctx=Load()))], orelse=["
-    "Return(value=Call(func=Name(id='Path', ctx=Load()), args=[BinOp(left=BinOp("
-    "left=Call(func=Name(id='str', ctx=Load()), args=[Name(id='file_name', ctx=Load())], "
-    "keywords=[]), op=Add(), right=Constant(value='.')), op=Add(), right=Name(id='ext', "
-    "ctx=Load()))], keywords=[]))])], decorator_list=[]")
+def pathish(v):
+    if v[0] in ('P', 'D', 'X', 'W'):
+        return True
+    if v[0] == 'T':
+        return any(pathish(x) for x in v[1])
+    return False
 
 
 class ClassInfo:
     def __init__(self, repo, relpath, clsname):
+        self.rel = relpath
         self.path = Path(repo) / relpath
+        if not self.path.exists():
+            raise TranslateError(f'module {relpath} not found')
         self.src = self.path.read_text()
         self.tree = ast.parse(self.src)
         self.cls = None
+        self.functions = {}       # module-level helpers
+        self.consts = {}          # module-level NAME = 'constant'
+        self.imports = {}         # module-level `from .x import Y` -> (rel, Y)
         for n in self.tree.body:
             if isinstance(n, ast.ClassDef) and n.name == clsname:
                 self.cls = n
+            elif isinstance(n, ast.FunctionDef):
+                self.functions[n.name] = n
+            elif isinstance(n, ast.Assign) and len(n.targets) == 1 \
+                    and isinstance(n.targets[0], ast.Name) and isinstance(n.value, ast.Constant):
+                self.consts[n.targets[0].id] = n.value
+            elif isinstance(n, ast.ImportFrom):
+                for a in n.names:
+                    r = resolve_import(relpath, n)
+                    if r is not None:
+                        self.imports[a.asname or a.name] = (r, a.name)
         if self.cls is None:
             raise TranslateError(f'class {clsname} not found in {relpath}')
         self.methods = {n.name: n for n in self.cls.body
                         if isinstance(n, ast.FunctionDef)}
+        self.class_consts = {}
+        for n in self.cls.body:
+            if isinstance(n, ast.Assign) and len(n.targets) == 1 \
+                    and isinstance(n.targets[0], ast.Name) and isinstance(n.value, ast.Constant):
+                self.class_consts[n.targets[0].id] = n.value
         self.bases = [ast.unparse(b) for b in self.cls.bases]
+
+
+def resolve_import(relpath, node):
+    """femio-relative path of the module a `from .a.b import X` names"""
+    if not node.level or not node.module:
+        return None
+    parts = relpath.split('/')[:-1]
+    if node.level > 1:
+        parts = parts[:len(parts) - (node.level - 1)]
+    return '/'.join(parts + node.module.split('.')) + '.py'
+
+
+def method_kind(m):
+    for d in m.decorator_list:
+        if isinstance(d, ast.Name) and d.id in ('staticmethod', 'classmethod'):
+            return d.id
+    return 'method'
 
 
 class Interp:
@@ -112,36 +208,108 @@ class Interp:
         self.repo = Path(repo)
         self.consumed = {}        # file -> sha256 of consumed text
         self.depth = 0
-        self.fem_writer = None
+        self.vdepth = 0
+        self.stack = []
+        self.is_writer = {}
+        self.classes = {}
+        self.inst = {}            # id(constructor call) -> (value, effects)
 
     def note(self, path, text):
         self.consumed[str(path)] = hashlib.sha256(text.encode()).hexdigest()
 
+    def get_class(self, rel, name):
+        key = (rel, name)
+        if key not in self.classes:
+            ci = ClassInfo(self.repo, rel, name)
+            self.classes[key] = ci
+            self.note(ci.path, ast.get_source_segment(ci.src, ci.cls) + ''.join(
+                ast.get_source_segment(ci.src, f) for f in ci.functions.values()))
+        return self.classes[key]
+
     # ---------------------------------------------------------------- values
+    def class_value(self, rel, nm):
+        """a femio class whose instances are followed: it has a write method
+        (data classes are ordinary unknown callables: a path handed to them is
+        a Create)"""
+        key = (rel, nm)
+        if key not in self.is_writer:
+            ok = False
+            f = self.repo / rel
+            if f.exists():
+                try:
+                    for n in ast.parse(f.read_text()).body:
+                        if isinstance(n, ast.ClassDef) and n.name == nm:
+                            ok = any(isinstance(x, ast.FunctionDef) and x.name == 'write'
+                                     for x in n.body)
+                except SyntaxError as e:
+                    raise TranslateError(f'syntax error in {rel}: {e}')
+            self.is_writer[key] = ok
+        return ('Cls', rel, nm) if self.is_writer[key] else O
+
+    def name_value(self, name, env, cls):
+        if name in env:
+            return env[name]
+        if cls is not None:
+            if name in cls.consts:
+                return self.ev(cls.consts[name], {}, cls)
+            if name in cls.imports:
+                rel, nm = cls.imports[name]
+                return self.class_value(rel, nm)
+        return O
+
     def ev(self, e, env, cls):
-        """abstract value of expression e; effects of calls inside e are
-        collected by stmt-level scanning (calls()) - here only the value"""
+        """abstract value of expression e (effects are collected separately by
+        expr_effects)"""
         if isinstance(e, ast.Constant):
             if isinstance(e.value, str):
                 return ('S', e.value)
+            if e.value is None:
+                return NONE
+            if isinstance(e.value, bool):
+                return ('B', e.value)
             return O
         if isinstance(e, ast.Name):
-            return env.get(e.id, O)
+            return self.name_value(e.id, env, cls)
+        if isinstance(e, (ast.Tuple, ast.List)):
+            return ('T', [self.ev(x, env, cls) for x in e.elts])
+        if isinstance(e, ast.IfExp):
+            t = self.tv(e.test, env, cls)
+            if t is True:
+                return self.ev(e.body, env, cls)
+            if t is False:
+                return self.ev(e.orelse, env, cls)
+            a, b = self.ev(e.body, env, cls), self.ev(e.orelse, env, cls)
+            if isinstance(t, tuple) and t[0] in ('EW', 'NEW') and a[0] == 'P' and b[0] == 'P':
+                if t[0] == 'NEW':
+                    a, b = b, a
+                return ('P', ('PIfEnds', t[2], t[1], a[1], b[1]))
+            return a if a == b else ('X',) if pathish(a) or pathish(b) else O
         if isinstance(e, ast.Attribute):
             key = self.attr_key(e)
-            if key is not None and key in env:
-                return env[key]
+            if key is not None:
+                if key in env:
+                    return env[key]
+                if cls is not None and e.attr in cls.class_consts:
+                    return self.ev(cls.class_consts[e.attr], {}, cls)
             base = self.ev(e.value, env, cls)
             if base[0] == 'P':
                 if e.attr == 'parent':
                     return ('D', base[1])      # a directory, not a file
-                if e.attr in ('name', 'stem', 'suffix'):
+                if e.attr in ('name', 'stem', 'suffix', 'suffixes', 'parts'):
                     return O
                 raise TranslateError(f'unknown path attribute .{e.attr} line {e.lineno}')
+            if base[0] == 'D':
+                raise TranslateError(f'attribute .{e.attr} of a directory, line {e.lineno}')
+            if base[0] == 'W':
+                return base[2].get('self.' + e.attr, O)
+            if base[0] == 'X':
+                return ('X',)
             return O
         if isinstance(e, ast.BinOp):
             l = self.ev(e.left, env, cls)
             r = self.ev(e.right, env, cls)
+            if l[0] == 'X' or r[0] == 'X':
+                return ('X',)
             if isinstance(e.op, ast.Add):
                 if l[0] == 'S' and r[0] == 'S':
                     return ('S', l[1] + r[1])
@@ -164,18 +332,39 @@ class Interp:
         if isinstance(e, ast.Call):
             f = e.func
             if isinstance(f, ast.Name) and f.id in ('str', 'Path') and len(e.args) == 1 \
-                    and not e.keywords:
+                    and not e.keywords and f.id not in env:
                 return self.ev(e.args[0], env, cls)
-            if isinstance(f, ast.Attribute) and f.attr == 'add_extension_if_needed' \
-                    and isinstance(f.value, ast.Name) and f.value.id == 'self':
-                self.check_add_ext(cls)
-                a = self.ev(e.args[0], env, cls)
-                b = self.ev(e.args[1], env, cls)
-                if a[0] != 'P' or b[0] != 'S':
-                    raise TranslateError(f'add_extension_if_needed on unknown args, line {e.lineno}')
-                return ('P', ('PAddExt', b[1], a[1]))
-            return O
-        if isinstance(e, ast.JoinedStr):
+            if isinstance(f, ast.Attribute) and f.attr == 'fspath' and len(e.args) == 1:
+                return self.ev(e.args[0], env, cls)
+            if isinstance(f, ast.Name):
+                fv = self.name_value(f.id, env, cls)
+                if fv[0] == 'Cls':
+                    return self.instance(e, fv, env, cls)[0]
+                if cls is not None and f.id in cls.functions and f.id not in env:
+                    return self.ret_value(cls.functions[f.id], cls, e, env, cls, {}, 'staticmethod')
+                return O
+            if isinstance(f, ast.Attribute):
+                if isinstance(f.value, ast.Name) and f.value.id == 'self':
+                    m, owner = self.lookup_method(cls, f.attr)
+                    if m is not None:
+                        return self.ret_value(m, owner, e, env, cls, env, method_kind(m))
+                    return O
+                rv = self.ev(f.value, env, cls)
+                if rv[0] == 'W':
+                    m, owner = self.lookup_method(rv[1], f.attr)
+                    if m is not None:
+                        return self.ret_value(m, owner, e, env, cls, rv[2], method_kind(m))
+                    return O
+                if rv[0] == 'P' and f.attr == 'with_suffix' and len(e.args) == 1 \
+                        and not e.keywords:
+                    a = self.ev(e.args[0], env, cls)
+                    if a[0] == 'S' and (a[1] == '' or (a[1].startswith('.') and len(a[1]) > 1
+                                                        and '/' not in a[1])):
+                        return ('P', ('PWithSuffix', a[1], rv[1]))
+                    raise TranslateError(f'with_suffix with a non-constant suffix, line {e.lineno}')
+                if rv[0] in ('P', 'D') and f.attr not in ('exists', 'is_file', 'is_dir', 'mkdir',
+                                                         'unlink', 'endswith', 'startswith'):
+                    raise TranslateError(f'value of path method .{f.attr}() line {e.lineno}')
             return O
         return O
 
@@ -184,22 +373,175 @@ class Interp:
             return 'self.' + e.attr
         return None
 
-    def check_add_ext(self, cls):
-        m = cls.methods.get('add_extension_if_needed')
-        if m is None:
-            raise TranslateError('add_extension_if_needed not found')
-        if not ast.dump(m).startswith(ADD_EXT_SHAPE):
-            raise TranslateError('add_extension_if_needed has an unrecognised body')
+    def instance(self, call, clsval, env, cls):
+        """XWriter(...) -> ('W', class, attribute env) + the effects of __init__"""
+        k = id(call)
+        if k not in self.inst:
+            wc = self.get_class(clsval[1], clsval[2])
+            wenv = {}
+            init, owner = self.lookup_method(wc, '__init__')
+            eff = ('Skip',)
+            if init is not None:
+                eff = self.inline(init, owner, call, env, self_env=wenv, caller=cls)
+            self.inst[k] = (('W', wc, wenv), eff)
+        return self.inst[k]
+
+    # ---------------------------------------------------------- truth values
+    def tv(self, t, env, cls):
+        """True / False / None (unknown) / ('E', pexp) / ('NE', pexp) /
+        ('EW', pexp, suffix) / ('NEW', pexp, suffix).  overwrite is falsy."""
+        if isinstance(t, ast.UnaryOp) and isinstance(t.op, ast.Not):
+            v = self.tv(t.operand, env, cls)
+            if v is None:
+                return None
+            if isinstance(v, bool):
+                return not v
+            flip = {'E': 'NE', 'NE': 'E', 'EW': 'NEW', 'NEW': 'EW'}
+            return (flip[v[0]],) + v[1:]
+        if isinstance(t, ast.BoolOp):
+            vals = [self.tv(x, env, cls) for x in t.values]
+            neutral = isinstance(t.op, ast.And)
+            if any(v is (not neutral) for v in vals):
+                return not neutral
+            rest = [v for v in vals if v is not neutral]
+            if not rest:
+                return neutral
+            if len(rest) == 1:
+                return rest[0]
+            return None
+        if isinstance(t, ast.Compare) and len(t.ops) == 1:
+            l = self.ev(t.left, env, cls)
+            r = self.ev(t.comparators[0], env, cls)
+            op = t.ops[0]
+            if isinstance(op, (ast.Eq, ast.NotEq)) and l[0] == 'S' and r[0] == 'S':
+                return (l[1] == r[1]) == isinstance(op, ast.Eq)
+            if isinstance(op, (ast.In, ast.NotIn)) and l[0] == 'S' and r[0] == 'T' \
+                    and all(x[0] == 'S' for x in r[1]):
+                return (l[1] in [x[1] for x in r[1]]) == isinstance(op, ast.In)
+            if isinstance(op, (ast.Is, ast.IsNot)) and (r == NONE or l == NONE):
+                other = l if r == NONE else r
+                if other == NONE:
+                    return isinstance(op, ast.Is)
+                if other[0] in ('P', 'D', 'S', 'W', 'T', 'B', 'Cls'):
+                    return isinstance(op, ast.IsNot)
+                return None
+            return None
+        if isinstance(t, ast.Call):
+            f = t.func
+            if isinstance(f, ast.Attribute) and f.attr == 'exists' and not t.args \
+                    and not t.keywords:
+                v = self.ev(f.value, env, cls)
+                if v[0] == 'P':
+                    return ('E', v[1])
+                return None
+            if isinstance(f, ast.Attribute) and f.attr == 'exists' and len(t.args) == 1 \
+                    and ast.unparse(f.value) in ('os.path', 'path'):
+                v = self.ev(t.args[0], env, cls)
+                if v[0] == 'P':
+                    return ('E', v[1])
+                return None
+            if isinstance(f, ast.Attribute) and f.attr == 'endswith' and len(t.args) == 1 \
+                    and not t.keywords:
+                v = self.ev(f.value, env, cls)
+                a = self.ev(t.args[0], env, cls)
+                if v[0] == 'P' and a[0] == 'S':
+                    return ('EW', v[1], a[1])
+                return None
+            if isinstance(f, ast.Name) and f.id == 'bool' and len(t.args) == 1:
+                return self.tv(t.args[0], env, cls)
+            return None
+        v = self.ev(t, env, cls)
+        if v == OW or v == NONE:
+            return False
+        if v[0] == 'B':
+            return v[1]
+        if v[0] == 'S':
+            return bool(v[1])
+        if v[0] in ('P', 'D', 'W', 'Cls'):
+            return True
+        if v[0] == 'T':
+            return bool(v[1])
+        return None
+
+    # -------------------------------------------------------- return values
+    def ret_value(self, m, owner, call, env, caller, self_env, kind):
+        """abstract value returned by a helper: its body is interpreted in
+        value mode (assignments, decided / endswith tests, returns); O when the
+        body is anything else"""
+        self.vdepth += 1
+        try:
+            if self.vdepth > 6:
+                return O
+            new = self.bind(m, owner, call, env, caller, self_env, kind)
+            r = self.value_block(list(m.body), new, owner, 0)
+            if r is not None and r[0] == 'ret':
+                return r[1]
+            return O
+        finally:
+            self.vdepth -= 1
+
+    def value_block(self, stmts, env, cls, fuel):
+        if fuel > 6:
+            return None
+        for i, st in enumerate(stmts):
+            if isinstance(st, (ast.Expr, ast.Pass, ast.Import, ast.ImportFrom)):
+                continue
+            if isinstance(st, ast.Assign) and all(isinstance(t, (ast.Name, ast.Attribute))
+                                                  for t in st.targets):
+                val = self.ev(st.value, env, cls)
+                for t in st.targets:
+                    self.assign(t, val, env, st.lineno)
+                continue
+            if isinstance(st, ast.Return):
+                return ('ret', self.ev(st.value, env, cls) if st.value is not None else NONE)
+            if isinstance(st, ast.Raise):
+                return ('raise',)
+            if isinstance(st, ast.If):
+                t = self.tv(st.test, env, cls)
+                rest = stmts[i + 1:]
+                if t is True:
+                    return self.value_block(list(st.body) + rest, env, cls, fuel)
+                if t is False:
+                    return self.value_block(list(st.orelse) + rest, env, cls, fuel)
+                a = self.value_block(list(st.body) + rest, dict(env), cls, fuel + 1)
+                b = self.value_block(list(st.orelse) + rest, dict(env), cls, fuel + 1)
+                if a is None or b is None:
+                    return None
+                if a[0] == 'raise':
+                    return b if t is None or t[0] not in ('E', 'NE') else None
+                if b[0] == 'raise':
+                    return a if t is None or t[0] not in ('E', 'NE') else None
+                if a[0] != 'ret' or b[0] != 'ret':
+                    return None
+                if a[1] == b[1]:
+                    return a
+                if isinstance(t, tuple) and t[0] in ('EW', 'NEW') \
+                        and a[1][0] == 'P' and b[1][0] == 'P':
+                    if t[0] == 'NEW':
+                        a, b = b, a
+                    return ('ret', ('P', ('PIfEnds', t[2], t[1], a[1][1], b[1][1])))
+                if a[1][0] in ('P', 'D') or b[1][0] in ('P', 'D'):
+                    return ('ret', ('X',))
+                return ('ret', O)
+            return None
+        return ('fall',)
 
     # ---------------------------------------------------------------- calls
     def path_args(self, call, env, cls):
         vals = []
-        for a in list(call.args) + [k.value for k in call.keywords]:
-            v = self.ev(a, env, cls)
+
+        def add(v):
             if v[0] == 'P':
                 vals.append(v[1])
             elif v[0] == 'D':
                 vals.append(None)
+            elif v[0] == 'T':
+                for x in v[1]:
+                    add(x)
+            elif v[0] == 'X':
+                vals.append(None)
+        for a in list(call.args) + [k.value for k in call.keywords]:
+            add(self.ev(a, env, cls))
         return vals
 
     def call_effects(self, call, env, cls):
@@ -211,7 +553,7 @@ class Interp:
         if isinstance(f, ast.Attribute):
             out.append(self.expr_effects(f.value, env, cls))
         # open()
-        if isinstance(f, ast.Name) and f.id == 'open':
+        if isinstance(f, ast.Name) and f.id == 'open' and 'open' not in env:
             v = self.ev(call.args[0], env, cls) if call.args else O
             mode = 'r'
             if len(call.args) > 1:
@@ -225,8 +567,10 @@ class Interp:
                     if mv[0] != 'S':
                         raise TranslateError(f'open() with non-constant mode, line {call.lineno}')
                     mode = mv[1]
+                elif k.arg == 'file':
+                    v = self.ev(k.value, env, cls)
             if v[0] != 'P':
-                if 'r' in mode and '+' not in mode:
+                if 'r' in mode and '+' not in mode and v[0] not in ('D', 'X'):
                     return seq(out)
                 raise TranslateError(f'open() for writing on an unknown path, line {call.lineno}')
             if 'w' in mode or 'x' in mode:
@@ -234,20 +578,80 @@ class Interp:
             elif 'a' in mode or '+' in mode:
                 out.append(('Append', v[1]))
             return seq(out)
-        # self.method(...)  -> inline
-        if isinstance(f, ast.Attribute) and isinstance(f.value, ast.Name) \
-                and f.value.id == 'self':
-            if f.attr == 'add_extension_if_needed':
+        # constructors of femio classes and module-level helpers
+        if isinstance(f, ast.Name):
+            fv = self.name_value(f.id, env, cls)
+            if fv[0] == 'Cls':
+                out.append(self.instance(call, fv, env, cls)[1])
                 return seq(out)
-            m, owner = self.lookup_method(cls, f.attr)
-            if m is not None:
-                out.append(self.inline(m, owner, call, env, self_env=env))
+            if cls is not None and f.id in cls.functions and f.id not in env:
+                out.append(self.inline(cls.functions[f.id], cls, call, env, self_env={},
+                                       caller=cls, kind='staticmethod'))
                 return seq(out)
-            # unknown self method: could touch self.* paths
-            if any(k.startswith('self.') and v[0] in ('P', 'D') for k, v in env.items()) \
-                    or self.path_args(call, env, cls):
-                raise TranslateError(f'call of unknown method self.{f.attr} line {call.lineno}')
-            return seq(out)
+        # removing / moving files
+        if isinstance(f, ast.Attribute):
+            rv = self.ev(f.value, env, cls)
+            recv = ast.unparse(f.value)
+            pa = [self.ev(a, env, cls) for a in call.args]
+            if recv == 'fileinput' and f.attr in ('input', 'FileInput'):
+                # the standard library's in-place filter: unlink <f><backup>, rename f to
+                # it, create f anew, unlink the backup when done
+                kw = {k.arg: k.value for k in call.keywords}
+                files = pa[0] if pa else self.ev(kw['files'], env, cls) if 'files' in kw else O
+                inplace = call.args[1] if len(call.args) > 1 else kw.get('inplace')
+                backup = call.args[2] if len(call.args) > 2 else kw.get('backup')
+                if files[0] != 'P':
+                    if pathish(files):
+                        raise TranslateError(f'fileinput on unknown paths, line {call.lineno}')
+                    return seq(out)
+                if inplace is None or (isinstance(inplace, ast.Constant) and not inplace.value):
+                    return seq(out)
+                if not isinstance(inplace, ast.Constant):
+                    raise TranslateError(f'fileinput with non-constant inplace, line {call.lineno}')
+                ext = '.bak'
+                if backup is not None:
+                    bv = self.ev(backup, env, cls)
+                    if bv[0] != 'S':
+                        raise TranslateError(f'fileinput with non-constant backup, line {call.lineno}')
+                    ext = bv[1] or '.bak'
+                bak = ('PSuffix', ext, files[1])
+                out += [('Delete', bak), ('Rename', files[1], bak), ('Create', files[1]),
+                        ('Delete', bak)]
+                return seq(out)
+            if rv[0] == 'P' and f.attr == 'unlink':
+                out += [('Delete', rv[1]), ('If', ('Raise',), ('Skip',))]
+                return seq(out)
+            if recv == 'os' and f.attr in ('remove', 'unlink') and pa and pa[0][0] == 'P':
+                out += [('Delete', pa[0][1]), ('If', ('Raise',), ('Skip',))]
+                return seq(out)
+            if rv[0] == 'P' and f.attr in ('replace', 'rename') and len(pa) == 1 \
+                    and pa[0][0] == 'P':
+                out.append(('Rename', rv[1], pa[0][1]))
+                return seq(out)
+            if recv in ('os', 'shutil') and f.attr in ('replace', 'rename', 'move') \
+                    and len(pa) == 2 and pa[0][0] == 'P' and pa[1][0] == 'P':
+                out.append(('Rename', pa[0][1], pa[1][1]))
+                return seq(out)
+        # obj.method(...)  -> inline
+        if isinstance(f, ast.Attribute):
+            if isinstance(f.value, ast.Name) and f.value.id == 'self':
+                m, owner = self.lookup_method(cls, f.attr)
+                if m is not None:
+                    out.append(self.inline(m, owner, call, env, self_env=env, caller=cls,
+                                           kind=method_kind(m)))
+                    return seq(out)
+                # unknown self method: could touch self.* paths
+                if any(k.startswith('self.') and v[0] in ('P', 'D') for k, v in env.items()) \
+                        or self.path_args(call, env, cls):
+                    raise TranslateError(f'call of unknown method self.{f.attr} line {call.lineno}')
+                return seq(out)
+            if rv[0] == 'W':
+                m, owner = self.lookup_method(rv[1], f.attr)
+                if m is None:
+                    raise TranslateError(f'{rv[1].cls.name}.{f.attr} not found, line {call.lineno}')
+                out.append(self.inline(m, owner, call, env, self_env=rv[2], caller=cls,
+                                       kind=method_kind(m)))
+                return seq(out)
         # read-only uses
         if isinstance(f, ast.Name) and f.id in READONLY_FUNCS:
             return seq(out)
@@ -263,7 +667,7 @@ class Interp:
             v = self.ev(f.value, env, cls)
             if v[0] == 'P':
                 out.append(('Create', v[1]))
-            elif v[0] == 'D':
+            elif v[0] in ('D', 'X'):
                 raise TranslateError(f'unknown method on a directory, line {call.lineno}')
         return seq(out)
 
@@ -292,37 +696,34 @@ class Interp:
         return seq(out)
 
     def lookup_method(self, cls, name):
+        if cls is None:
+            return None, None
         if name in cls.methods:
             return cls.methods[name], cls
         for b in cls.bases:
             if b.endswith('FEMWriter'):
-                if self.fem_writer is None:
-                    self.fem_writer = ClassInfo(self.repo, 'femio/fem_writer.py', 'FEMWriter')
-                    self.note(self.fem_writer.path, ast.get_source_segment(
-                        self.fem_writer.src, self.fem_writer.cls))
-                if name in self.fem_writer.methods:
-                    return self.fem_writer.methods[name], self.fem_writer
+                fw = self.get_class('femio/fem_writer.py', 'FEMWriter')
+                if name in fw.methods:
+                    return fw.methods[name], fw
         return None, None
 
-    def inline(self, m, owner, call, env, self_env, caller=None):
-        caller = caller or owner
-        self.depth += 1
-        if self.depth > 12:
-            raise TranslateError('inlining too deep (recursion?)')
+    def bind(self, m, owner, call, env, caller, self_env, kind):
         new = {k: v for k, v in self_env.items() if k.startswith('self.')}
         a = m.args
-        if a.vararg or a.posonlyargs:
-            # *args: bind nothing, but no path may be passed through it
-            pass
-        params = [x.arg for x in a.args][1:]
-        defaults = dict(zip([x.arg for x in a.args][len(a.args) - len(a.defaults):], a.defaults))
+        params = [x.arg for x in a.posonlyargs + a.args]
+        if kind != 'staticmethod':
+            params = params[1:]
+        allpos = [x.arg for x in a.posonlyargs + a.args]
+        defaults = dict(zip(allpos[len(allpos) - len(a.defaults):], a.defaults))
         kwdefaults = {x.arg: d for x, d in zip(a.kwonlyargs, a.kw_defaults) if d is not None}
         bound = {}
         for i, arg in enumerate(call.args):
+            if isinstance(arg, ast.Starred):
+                raise TranslateError(f'*args call, line {call.lineno}')
             v = self.ev(arg, env, caller)
             if i < len(params):
                 bound[params[i]] = v
-            elif v[0] in ('P', 'D'):
+            elif v[0] in ('P', 'D', 'X', 'T'):
                 raise TranslateError(f'path passed through *args, line {call.lineno}')
         for k in call.keywords:
             if k.arg is None:
@@ -337,7 +738,17 @@ class Interp:
                 new[name] = self.ev(kwdefaults[name], {}, owner)
             else:
                 new[name] = O
+        return new
+
+    def inline(self, m, owner, call, env, self_env, caller=None, kind='method'):
+        caller = caller or owner
+        self.depth += 1
+        self.stack.append(m.name)
+        if self.depth > 12 or self.stack.count(m.name) > 2:
+            raise TranslateError('inlining too deep (recursion?): ' + ' > '.join(self.stack))
+        new = self.bind(m, owner, call, env, caller, self_env, kind)
         body = self.block(m.body, new, owner)
+        self.stack.pop()
         # self.* assignments made by the callee are visible to the caller
         for k, v in new.items():
             if k.startswith('self.'):
@@ -346,35 +757,6 @@ class Interp:
         return ('Call', body) if has_effect(body) else ('Skip',)
 
     # ------------------------------------------------------------ statements
-    def guard_of(self, st, env, cls):
-        """if not overwrite and P.exists(): raise  ->  pexp or None"""
-        if not isinstance(st, ast.If) or st.orelse:
-            return None
-        t = st.test
-        if not (isinstance(t, ast.BoolOp) and isinstance(t.op, ast.And) and len(t.values) == 2):
-            return None
-        a, b = t.values
-        if not (isinstance(a, ast.UnaryOp) and isinstance(a.op, ast.Not)):
-            return None
-        ow = ast.unparse(a.operand)
-        if ow == 'overwrite':
-            if env.get('overwrite', O) != ('OW',):
-                return None
-        elif ow == 'self.overwrite':
-            if env.get('self.overwrite', O) != ('OW',):
-                return None
-        else:
-            return None
-        if not (isinstance(b, ast.Call) and isinstance(b.func, ast.Attribute)
-                and b.func.attr == 'exists' and not b.args and not b.keywords):
-            return None
-        v = self.ev(b.func.value, env, cls)
-        if v[0] != 'P':
-            return None
-        if not (len(st.body) == 1 and isinstance(st.body[0], ast.Raise)):
-            return None
-        return v[1]
-
     def block(self, stmts, env, cls):
         out = []
         for st in stmts:
@@ -388,13 +770,21 @@ class Interp:
             key = self.attr_key(target)
             if key is not None:
                 env[key] = val
-            elif val[0] in ('P', 'D'):
+            elif val[0] in ('P', 'D', 'X'):
                 raise TranslateError(f'path stored in a foreign attribute, line {lineno}')
         elif isinstance(target, (ast.Tuple, ast.List)):
-            for t in target.elts:
-                self.assign(t, O, env, lineno)
+            if val[0] == 'T' and len(val[1]) == len(target.elts) \
+                    and not any(isinstance(t, ast.Starred) for t in target.elts):
+                for t, v in zip(target.elts, val[1]):
+                    self.assign(t, v, env, lineno)
+            else:
+                if val[0] in ('P', 'D', 'X', 'T'):
+                    raise TranslateError(f'path unpacked from an unknown sequence, line {lineno}')
+                for t in target.elts:
+                    self.assign(t, O, env, lineno)
         elif isinstance(target, ast.Subscript):
-            if val[0] in ('P', 'D'):
+            if val[0] in ('P', 'D', 'X') or (val[0] == 'T' and any(
+                    v[0] in ('P', 'D', 'X') for v in val[1])):
                 raise TranslateError(f'path stored in a container, line {lineno}')
         elif isinstance(target, ast.Starred):
             self.assign(target.value, O, env, lineno)
@@ -404,12 +794,13 @@ class Interp:
     def merge(self, env, e1, e2):
         for k in set(e1) | set(e2):
             v1, v2 = e1.get(k, O), e2.get(k, O)
-            env[k] = v1 if v1 == v2 else ('X',)   # X: differs between branches
+            if v1 == v2:
+                env[k] = v1
+            else:
+                # X: may be a path, unknown which; O: certainly carries no path
+                env[k] = ('X',) if pathish(v1) or pathish(v2) else O
 
     def stmt(self, st, env, cls):
-        g = self.guard_of(st, env, cls)
-        if g is not None:
-            return ('Guard', g)
         if isinstance(st, ast.Expr):
             return self.expr_effects(st.value, env, cls)
         if isinstance(st, (ast.Assign, ast.AnnAssign, ast.AugAssign)):
@@ -419,36 +810,56 @@ class Interp:
                 val = O
                 targets = [st.target]
                 v = self.ev(st.target, env, cls)
-                if v[0] in ('P', 'D'):
+                if v[0] in ('P', 'D', 'X'):
                     raise TranslateError(f'augmented assignment to a path, line {st.lineno}')
             else:
                 val = self.ev(value, env, cls) if value is not None else O
                 targets = st.targets if isinstance(st, ast.Assign) else [st.target]
-            # `overwrite` flows only by plain copies
-            if value is not None and ast.unparse(value) in ('overwrite', 'self.overwrite'):
-                src = ast.unparse(value)
-                if env.get(src, O) == ('OW',):
-                    val = ('OW',)
             for t in targets:
                 self.assign(t, val, env, st.lineno)
             return eff
         if isinstance(st, ast.Return):
             return seq([self.expr_effects(st.value, env, cls), ('Return',)])
         if isinstance(st, ast.Raise):
-            return ('Raise',)
+            return seq([self.expr_effects(st.exc, env, cls), ('Raise',)])
         if isinstance(st, ast.If):
+            t = self.tv(st.test, env, cls)
             test = self.expr_effects(st.test, env, cls)
+            if t is True:
+                return seq([test, self.block(st.body, env, cls)])
+            if t is False:
+                return seq([test, self.block(st.orelse, env, cls)])
             e1, e2 = dict(env), dict(env)
             a = self.block(st.body, e1, cls)
             b = self.block(st.orelse, e2, cls)
+            if isinstance(t, tuple) and t[0] in ('E', 'NE'):
+                # an existence test of a would-be target: it has to be a refusal
+                if t[0] == 'NE':
+                    a, b, e1, e2 = b, a, e2, e1
+                if not definitely_raises(a):
+                    raise TranslateError(
+                        f'existence test of a target that is not a refusal, line {st.lineno}')
+                env.clear()
+                env.update(e2)
+                return seq([test, ('Guard', t[1]), b])
             self.merge(env, e1, e2)
             if has_effect(a) or has_effect(b):
                 return seq([test, ('If', a, b)])
             return test
         if isinstance(st, (ast.For, ast.While)):
             head = self.expr_effects(st.iter if isinstance(st, ast.For) else st.test, env, cls)
+            if isinstance(st, ast.While):
+                t = self.tv(st.test, env, cls)
+                if isinstance(t, tuple) and t[0] in ('E', 'NE'):
+                    raise TranslateError(f'loop on the existence of a target, line {st.lineno}')
             if isinstance(st, ast.For):
-                self.assign(st.target, O, env, st.lineno)
+                it = self.ev(st.iter, env, cls)
+                pathish = it[0] in ('P', 'D', 'X') or (it[0] == 'T' and any(
+                    v[0] in ('P', 'D', 'X', 'T') for v in it[1]))
+                if pathish and not isinstance(st.target, ast.Name):
+                    raise TranslateError(f'loop over paths, line {st.lineno}')
+                # X = "some path, unknown which": every use other than printing fails closed
+                self.assign(st.target, ('X',) if pathish else O, env, st.lineno)
             e1 = dict(env)
             body = self.block(st.body, e1, cls)
             # a second pass with the merged environment: loop-carried values
@@ -469,28 +880,67 @@ class Interp:
                     self.assign(it.optional_vars, O, env, st.lineno)
             out.append(self.block(st.body, env, cls))
             return seq(out)
-        if isinstance(st, (ast.Pass, ast.Import, ast.ImportFrom, ast.Break, ast.Continue,
+        if isinstance(st, ast.ImportFrom):
+            rel = resolve_import(cls.rel, st) if cls is not None else None
+            for a in st.names:
+                env[a.asname or a.name] = self.class_value(rel, a.name) if rel is not None else O
+            return ('Skip',)
+        if isinstance(st, ast.Import):
+            return ('Skip',)
+        if isinstance(st, (ast.Pass, ast.Break, ast.Continue,
                            ast.Global, ast.Nonlocal, ast.Assert, ast.Delete)):
             if isinstance(st, (ast.Break, ast.Continue)):
                 # inside Loop: ends the iteration; modelled conservatively by
-                # the loop count chosen by the oracle -> only sound if nothing
-                # with an effect follows in the same body; keep it simple:
+                # the loop count chosen by the oracle
                 return ('Skip',)
             return ('Skip',)
         if isinstance(st, ast.FunctionDef):
             # nested helper: scanned for effects when defined (conservative)
             e1 = dict(env)
             body = self.block(st.body, e1, cls)
-            if has_effect(body) and any(k[0] in ('Create', 'Append') for k in flatten(body)):
+            if has_file_event(body):
                 raise TranslateError(f'nested function with file effects, line {st.lineno}')
+            env[st.name] = O
             return ('Skip',)
         if isinstance(st, ast.Try):
-            raise TranslateError(f'try statement, line {st.lineno}')
+            e0 = dict(env)
+            e_body = dict(env)
+            body = self.block(list(st.body) + list(st.orelse), e_body, cls)
+            # the handler may be entered from anywhere in the body
+            e_h = dict(env)
+            self.merge(e_h, e0, e_body)
+            res = None
+            hs = []
+            e_after = [e_body]
+            for h in st.handlers:
+                eh = dict(e_h)
+                if h.name:
+                    eh[h.name] = O
+                hs.append(self.block(h.body, eh, cls))
+                e_after.append(eh)
+            if st.handlers:
+                # no handler may match: the exception then propagates
+                hp = ('Raise',)
+                for h in reversed(hs):
+                    hp = ('If', h, hp)
+                res = ('Try', body, hp)
+            else:
+                res = body
+            acc = e_after[0]
+            for e in e_after[1:]:
+                m = {}
+                self.merge(m, acc, e)
+                acc = m
+            if st.finalbody:
+                ef = dict(env)
+                self.merge(ef, e0, acc)
+                fin = self.block(st.finalbody, ef, cls)
+                res = ('Finally', res, fin)
+                acc = ef
+            env.clear()
+            env.update(acc)
+            return res if has_effect(res) else ('Skip',)
         raise TranslateError(f'unsupported statement {type(st).__name__} line {st.lineno}')
-
-
-def has_file_event(p):
-    return any(k[0] in ('Guard', 'Create', 'Append') for k in flatten(p))
 
 
 def simplify(p):
@@ -501,13 +951,20 @@ def simplify(p):
         if any(q[0] == 'Raise' for q in flatten(p[1])):
             return ('If', ('Raise',), ('Skip',))
         return ('Skip',)
-    if k in ('Seq', 'If'):
+    if k == 'Seq':
+        return seq([simplify(p[1]), simplify(p[2])])
+    if k == 'If':
         a, b = simplify(p[1]), simplify(p[2])
-        if k == 'Seq':
-            return seq([a, b])
         if a == b and a[0] == 'Skip':
             return ('Skip',)
         return ('If', a, b)
+    if k in ('Try', 'Finally'):
+        a, b = simplify(p[1]), simplify(p[2])
+        if k == 'Finally' and b[0] == 'Skip':
+            return a
+        if k == 'Try' and not any(q[0] in ('Raise', 'Guard') for q in flatten(a)):
+            return a
+        return (k, a, b)
     if k in ('Loop', 'Call'):
         b = simplify(p[1])
         if b[0] == 'Skip':
@@ -516,157 +973,68 @@ def simplify(p):
     return p
 
 
-def flatten(p):
-    yield p
-    for c in p[1:]:
-        if isinstance(c, tuple) and c and isinstance(c[0], str) and c[0][0].isupper():
-            yield from flatten(c)
-
-
-def find_writer_imports(fn):
-    """map local class name -> (module relpath, class) from the lazy imports"""
-    out = {}
-    for n in ast.walk(fn):
-        if isinstance(n, ast.ImportFrom) and n.level == 1 and n.module:
-            rel = 'femio/' + n.module.replace('.', '/') + '.py'
-            for a in n.names:
-                out[a.asname or a.name] = (rel, a.name)
+def formats_of(w):
+    """the constants file_type is compared with, in order of appearance"""
+    found = []
+    for n in ast.walk(w):
+        if isinstance(n, ast.Compare) and isinstance(n.left, ast.Name) \
+                and n.left.id == 'file_type' and len(n.ops) == 1:
+            c = n.comparators[0]
+            try:
+                v = ast.literal_eval(c)
+            except Exception:  # noqa
+                continue
+            vs = [v] if isinstance(v, str) else list(v) if isinstance(v, (list, tuple, set)) else []
+            for x in vs:
+                if isinstance(x, str):
+                    found.append((n.lineno, n.col_offset, x))
+    out = []
+    for _, _, x in sorted(found):
+        if x not in out:
+            out.append(x)
     return out
 
 
 def translate(repo):
     it = Interp(repo)
-    fd = ClassInfo(repo, 'femio/fem_data.py', 'FEMData')
+    fd = it.get_class('femio/fem_data.py', 'FEMData')
     w = fd.methods.get('write')
     if w is None:
         raise TranslateError('FEMData.write not found')
-    it.note(fd.path, ast.get_source_segment(fd.src, w)
-            + ast.get_source_segment(fd.src, fd.methods['add_extension_if_needed']))
-    imports = find_writer_imports(w)
-    # --- the prologue up to the file_type dispatch
-    dispatch = None
-    prologue = []
-    for st in w.body:
-        if isinstance(st, ast.If) and 'file_type ==' in ast.unparse(st.test):
-            dispatch = st
-            continue
-        if dispatch is None:
-            prologue.append(st)
-    if dispatch is None:
-        raise TranslateError('file_type dispatch not found')
-    # the name handling: `if file_name is None: ... else: file_name = Path(file_name)`
-    env0 = {'overwrite': ('OW',), 'file_name': ('P', ('PName',))}
-    pro = []
-    for st in prologue:
-        if isinstance(st, ast.Expr) and isinstance(st.value, ast.Constant):
-            continue                      # docstring
-        if isinstance(st, ast.If) and ast.unparse(st.test) == 'file_name is None':
-            # explicit name given: the else branch
-            pro.append(it.block(st.orelse, env0, fd))
-            continue
-        pro.append(it.stmt(st, env0, fd))
-    # --- the branches
-    branches = []
-    node = dispatch
-    while True:
-        branches.append((node.test, node.body))
-        if len(node.orelse) == 1 and isinstance(node.orelse[0], ast.If):
-            node = node.orelse[0]
-        else:
-            break
+    it.note(fd.path, ast.get_source_segment(fd.src, w) + ''.join(
+        ast.get_source_segment(fd.src, m) for n, m in fd.methods.items()
+        if n in ('add_extension_if_needed',)))
+    fts = formats_of(w)
+    if not fts:
+        raise TranslateError('no file_type dispatch found in FEMData.write')
+    a = w.args
+    params = [x.arg for x in a.posonlyargs + a.args + a.kwonlyargs][1:]
+    for need in ('file_type', 'file_name', 'overwrite'):
+        if need not in params:
+            raise TranslateError(f'FEMData.write has no parameter {need}')
+    if a.vararg or a.kwarg:
+        raise TranslateError('FEMData.write takes *args/**kwargs')
     cfg = []
-    for test, body in branches:
-        t = ast.unparse(test)
-        if isinstance(test, ast.Compare) and isinstance(test.ops[0], ast.Eq):
-            fts = [ast.literal_eval(test.comparators[0])]
-        elif isinstance(test, ast.Compare) and isinstance(test.ops[0], ast.In):
-            fts = list(ast.literal_eval(test.comparators[0]))
-        else:
-            raise TranslateError(f'unrecognised dispatch test {t}')
-        env = dict(env0)
-        local_imports = dict(imports)
-        progs = []
-        for st in body:
-            if isinstance(st, ast.ImportFrom):
-                continue
-            progs.append(translate_branch_stmt(it, st, env, fd, local_imports))
-        for ft in fts:
-            cfg.append((ft, ('Call', simplify(seq(pro + progs)))))
+    for ft in fts + [OTHER]:
+        it.inst.clear()
+        it.depth = 0
+        it.stack = []
+        env = {p: O for p in params}
+        env['file_type'] = ('S', ft if ft != OTHER else '\0no such format')
+        env['overwrite'] = OW
+        env['file_name'] = ('P', ('PName',))
+        body = it.block(w.body, env, fd)
+        cfg.append((ft, ('Call', simplify(body))))
     return cfg, it.consumed
 
 
-def translate_branch_stmt(it, st, env, fd, imports):
-    """`written_files = XWriter(self, ...).write(file_name=..., overwrite=overwrite, ...)`
-    is inlined; everything else goes through the generic rules"""
-    if isinstance(st, ast.Assign) and isinstance(st.value, ast.Call):
-        c = st.value
-        f = c.func
-        if isinstance(f, ast.Attribute) and isinstance(f.value, ast.Call) \
-                and isinstance(f.value.func, ast.Name) and f.value.func.id in imports:
-            rel, clsname = imports[f.value.func.id]
-            wc = ClassInfo(it.repo, rel, clsname)
-            it.note(wc.path, ast.get_source_segment(wc.src, wc.cls))
-            wenv = {}
-            out = []
-            init = wc.methods.get('__init__')
-            if init is not None:
-                out.append(it.inline(init, wc, f.value, env, self_env=wenv, caller=fd))
-            m = wc.methods.get(f.attr)
-            if m is None:
-                raise TranslateError(f'{clsname}.{f.attr} not found')
-            # bind: overwrite flag must be passed through
-            call_env = dict(env)
-            call_env.update(wenv)
-            self_env = dict(wenv)
-            # evaluate args in the caller's env, mark overwrite
-            prog = inline_with_overwrite(it, m, wc, c, env, self_env, fd)
-            out.append(prog)
-            for t in st.targets:
-                it.assign(t, O, env, st.lineno)
-            return seq(out)
-    return it.stmt(st, env, fd)
-
-
-def inline_with_overwrite(it, m, owner, call, env, self_env, caller):
-    # like Interp.inline, but the `overwrite=overwrite` keyword keeps its tag
-    tagged = {}
-    for k in call.keywords:
-        if k.arg is not None and ast.unparse(k.value) == 'overwrite' \
-                and env.get('overwrite') == ('OW',):
-            tagged[k.arg] = ('OW',)
-    prog_holder = {}
-    orig_ev = it.ev
-
-    def ev(e, en, cls):
-        return orig_ev(e, en, cls)
-    # bind manually
-    it.depth += 1
-    new = dict(self_env)
-    a = m.args
-    params = [x.arg for x in a.args][1:]
-    defaults = dict(zip([x.arg for x in a.args][len(a.args) - len(a.defaults):], a.defaults))
-    kwdefaults = {x.arg: d for x, d in zip(a.kwonlyargs, a.kw_defaults) if d is not None}
-    bound = {}
-    for i, arg in enumerate(call.args):
-        bound[params[i]] = it.ev(arg, env, caller)
-    for k in call.keywords:
-        bound[k.arg] = tagged.get(k.arg, it.ev(k.value, env, caller))
-    for name in params + [x.arg for x in a.kwonlyargs]:
-        if name in bound:
-            new[name] = bound[name]
-        elif name in defaults:
-            new[name] = it.ev(defaults[name], {}, owner)
-        elif name in kwdefaults:
-            new[name] = it.ev(kwdefaults[name], {}, owner)
-        else:
-            new[name] = O
-    body = it.block(m.body, new, owner)
-    it.depth -= 1
-    return ('Call', body) if has_effect(body) else ('Skip',)
+def prog_name(ft):
+    return 'prog_' + ('other' if ft == OTHER else ft)
 
 
 HEADER = """(* GENERATED by /verif/translate/c07_effects.py from /repo - do not edit.
-   One effect program per output format of FEMData.write (overwrite=False). *)
+   One effect program per output format of FEMData.write (overwrite falsy);
+   "<other>" is any file_type the dispatch does not know. *)
 From Coq Require Import String List.
 Import ListNotations.
 From FV.C07 Require Import Model.
@@ -675,15 +1043,24 @@ Open Scope string_scope.
 """
 
 
-def emit(cfg):
+def emit(cfg, open_formats=()):
     out = [HEADER]
     names = []
     for ft, prog in cfg:
-        nm = 'prog_' + ft
+        nm = prog_name(ft)
         names.append((ft, nm))
         out.append(f'Definition {nm} : prog :=\n{prog_coq(prog)}.\n\n')
     out.append('Definition cfg : list (string * prog) :=\n  [' + ';\n   '.join(
         f'({coq_str(ft)}, {nm})' for ft, nm in names) + '].\n')
+    out.append(
+        '\n(* formats for which known_findings.d/C07.json lists an OPEN defect: while their '
+        'program\n   fails the static check they are left out of what is claimed proved '
+        '(and the\n   refutation is proved instead, gen/Refuted.v) *)\n'
+        'Definition open_findings : list string :=\n  ['
+        + '; '.join(coq_str(f) for f in open_formats) + '].\n\n'
+        'Definition cfg_proved : list (string * prog) :=\n'
+        '  filter (fun x => negb (existsb (String.eqb (fst x)) open_findings\n'
+        '                         && negb (prog_ok (snd x)))) cfg.\n')
     return ''.join(out)
 
 
